@@ -38,6 +38,7 @@ RULE = ("short generated programs (print results, sys.argv, __name__; exit via s
         "{a, -i, -c, -m, --, --spy, -B, -, --x=1, '', spaces, Unicode, -h, --help, -v, --version, ...} x option "
         "spellings before the program (-B -E -u -BE --unbuffered, -Bc CODE, -cCODE, -c=CODE, -mMOD, -m=MOD, --), each "
         "run in the 4 modes with `hy`, plus (quick, rotating) one mode with `python -m hy` or one cached re-run of FILE / -m, (thorough) all 4 modes with `python -m hy` and both cached re-runs. "
+        "`--` (or another option-like item) is the FIRST trailing argument in ~30 % of the cases and in the first cases of every shard. "
         "Non-trivial = trailing argument list containing an option-like item (starts with '-'); distinct by "
         "(program, arguments, option spellings).")
 FLOOR = {"quick": 12, "thorough": 200}
@@ -93,7 +94,7 @@ ENDINGS = [
 ]
 
 
-def gen(rng, tier, force_cache=None):
+def gen(rng, tier, force_cache=None, dash_first=False):
     """force_cache = "file" | "m": a case built so that the cached re-run of that mode is
     observable (program compiles, no -B, re-run scheduled) — the gate-bearing class."""
     body = []
@@ -130,6 +131,15 @@ def gen(rng, tier, force_cache=None):
     args = []
     for _ in range(nargs):
         args.append(rng.choice(ARGS_OPT) if rng.random() < 0.7 else rng.choice(ARGS_PLAIN))
+    # stratum: exactly `--` (or another terminator-like item) as the FIRST trailing argument,
+    # i.e. directly after -c CODE / -m MOD / FILE / `-`
+    r = rng.random()
+    if dash_first or r < 0.2:
+        args = ["--"] + args[:3]
+        if len(args) == 1 and rng.random() < 0.7:
+            args.append(rng.choice(ARGS_PLAIN + ARGS_OPT))
+    elif r < 0.3:
+        args = [rng.choice(["-", "", "-c", "-m", "-i", "--spy", "-x", "-B", "-E", "-u", "-h"])] + args[:3]
     if pkgmod:
         mod_hy, relfile = "pkg.sub-mod", "pkg/sub_mod.hy"
     else:
@@ -167,7 +177,8 @@ def cases(seed, tier, shard, nshards):
         rng = rng_for(seed, ID, shard, i)
         i += 1
         # the gate-bearing classes (cached re-run of FILE, of -m) come first in every shard
-        yield gen(rng, tier, force_cache={1: "file", 2: "m"}.get(i))
+        # ... and so does the `--`-as-first-trailing-argument stratum
+        yield gen(rng, tier, force_cache={1: "file", 2: "m"}.get(i), dash_first=i in (1, 3))
 
 
 def mangle_mod(name):
@@ -300,6 +311,8 @@ def judge(case, obs):
 def run_case(case):
     optlike = any(a.startswith("-") for a in case["args"])
     classes = ["feat:" + f for f in case["feats"]] + ["nargs:%d" % len(case["args"])]
+    if case["args"] and (case["args"][0].startswith("-") or case["args"][0] == ""):
+        classes.append("first-arg:" + (case["args"][0] or "<empty>"))
     classes += ["arg:" + a for a in sorted(set(case["args"])) if a.startswith("-")]
     classes += [f"spell:{k}:{v}" for k, v in case["spell"].items()]
     classes += ["pre:" + ("".join(p) or "none") for p in {tuple(v) for v in case["pre"].values()}]
@@ -330,6 +343,8 @@ def gate(tot, classes, extra, tier):
     lost = skip_gate(tot, classes)
     if lost:
         return lost
+    if not classes.get("first-arg:--"):
+        return "double-dash-as-first-trailing-argument-never-exercised"
     if not any(k.startswith("cached-rerun:") for k in classes):
         return "cached-rerun-of-FILE-or-m-never-observed"
     return None
